@@ -1,9 +1,274 @@
-/- C13 driver: not written yet -/
+/-
+  C13 driver: replays the operation stream of harness/treeops.cpp through the reference-count
+  model (LibfiveModel/RefCount.lean) and compares, after every operation, the model's prediction
+  with what the real library did: number of live nodes, which slots are live and where they point,
+  the refcount of every slot's node and (when printed) of every live node.
+  Output: `ok …` / `MISMATCH …` per observation.
+-/
 import Driver.Parse
+import LibfiveModel.RefCount
+open Libfive Libfive.RC
 
 namespace Driver.C13
 
-def run (_args : List String) (lines : Array String) : Array String :=
-  #[s!"MISMATCH driver-not-implemented {lines.size}"]
+structure Pending where
+  toks : List String := []
+  built : Option (List Spec × Option Ref) := none   -- parsed `built` line (root none = unparsable)
+  mbuilt : Option Nat := none
+  isNull : Bool := false
+  exc : Bool := false
+  bad : Option String := none
+
+def parseRef (t : String) : Option Ref :=
+  if t.startsWith "o" then (t.drop 1).toString.toNat?.map Ref.old
+  else if t.startsWith "n" && t != "null" then (t.drop 1).toString.toNat?.map Ref.new
+  else none
+
+/-- tokens after `built`: n {kind nk ref*} root ref -/
+partial def parseBuilt (ws : List String) : Option (List Spec × Option Ref) :=
+  match ws with
+  | n :: rest =>
+    let n := nat! n
+    let rec go (k : Nat) (ws : List String) (acc : List Spec) : Option (List Spec × List String) :=
+      match k, ws with
+      | 0, ws => some (acc.reverse, ws)
+      | k + 1, kind :: nk :: ws =>
+        let nk := nat! nk
+        let refs := (ws.take nk).map parseRef
+        if refs.any Option.isNone || (ws.take nk).length < nk then none
+        else go k (ws.drop nk) (⟨nat! kind, refs.filterMap id⟩ :: acc)
+      | _, _ => none
+    match go n rest [] with
+    | some (specs, ["root", r]) => some (specs, parseRef r)
+    | _ => none
+  | _ => none
+
+def slotIdx (t : String) : Nat := nat! t
+
+/-- run a list of model ops; returns final state and whether all were accepted -/
+def runOps (s : State) (ops : List RC.Op) : State × Bool :=
+  -- (pattern-matching lambda: the pair is taken apart before `step`, so the state stays unshared)
+  ops.foldl (fun (acc : State × Bool) o =>
+    match acc with
+    | (st, ok) =>
+      let r := step st o
+      (r.1, ok && r.2 == Out.ok)) (s, true)
+
+def ptrOf (s : State) (h : Nat) : Option Nat := (s.slot h).ptr
+
+/-- macro expansion with scratch slots A B C = the last three slots -/
+def runMacro (s0 : State) (toks : List String) : State × Bool := Id.run do
+  let n := s0.slots.size
+  let A := n - 2
+  let B := n - 1
+  let C := n - 3
+  let mut s := s0
+  let mut ok := true
+  match toks with
+  | ["mchainun", d, src, _op, cnt] =>
+    let r := runOps s [.copy A (slotIdx src)]
+    s := r.1; ok := ok && r.2
+    for _ in [0:nat! cnt] do
+      match ptrOf s A with
+      | some pa =>
+        let r := runOps s [.build B [A] false [⟨1, [.old pa]⟩] (.new 0) false, .moveAssign A B, .destroy B]
+        s := r.1; ok := ok && r.2
+      | none => ok := false
+    let r := runOps s [.move (slotIdx d) A, .destroy A]
+    return (r.1, ok && r.2)
+  | ["mchainbin", d, src, l, _op, cnt] =>
+    let r := runOps s [.copy A (slotIdx src)]
+    s := r.1; ok := ok && r.2
+    for _ in [0:nat! cnt] do
+      match ptrOf s A, ptrOf s (slotIdx l) with
+      | some pa, some pl =>
+        let r := runOps s [.build B [A, slotIdx l] false [⟨2, [.old pa, .old pl]⟩] (.new 0) false,
+                           .moveAssign A B, .destroy B]
+        s := r.1; ok := ok && r.2
+      | _, _ => ok := false
+    let r := runOps s [.move (slotIdx d) A, .destroy A]
+    return (r.1, ok && r.2)
+  | ["mchainself", d, src, _op, cnt] =>
+    let r := runOps s [.copy A (slotIdx src)]
+    s := r.1; ok := ok && r.2
+    for _ in [0:nat! cnt] do
+      match ptrOf s A with
+      | some pa =>
+        let r := runOps s [.build B [A, A] false [⟨2, [.old pa, .old pa]⟩] (.new 0) false, .moveAssign A B, .destroy B]
+        s := r.1; ok := ok && r.2
+      | none => ok := false
+    let r := runOps s [.move (slotIdx d) A, .destroy A]
+    return (r.1, ok && r.2)
+  | ["mfan", d, src, l, _o1, _o2, cnt] =>
+    let r := runOps s [.copy A (slotIdx src)]
+    s := r.1; ok := ok && r.2
+    for _ in [0:nat! cnt] do
+      match ptrOf s (slotIdx l) with
+      | some pl =>
+        let r := runOps s [.build B [slotIdx l] false [⟨1, [.old pl]⟩] (.new 0) false]
+        s := r.1; ok := ok && r.2
+        match ptrOf s A, ptrOf s B with
+        | some pa, some pb =>
+          let r := runOps s [.build C [A, B] false [⟨2, [.old pa, .old pb]⟩] (.new 0) false,
+                             .moveAssign A C, .destroy C, .destroy B]
+          s := r.1; ok := ok && r.2
+        | _, _ => ok := false
+      | none => ok := false
+    let r := runOps s [.move (slotIdx d) A, .destroy A]
+    return (r.1, ok && r.2)
+  | _ => return (s, false)
+
+/-- translate one harness op (with what the harness reported about its outcome) into model ops -/
+def modelOps (p : Pending) : Option (List RC.Op) :=
+  let sl := slotIdx
+  let buildOp (d : String) (args : List String) (temps raw : Bool) : Option (List RC.Op) :=
+    if p.exc then some [.observe (args.map sl)]
+    else if p.isNull then some [.null (sl d)]
+    else match p.built with
+      | some (specs, some root) => some [.build (sl d) (args.map sl) temps specs root raw]
+      | _ => none
+  match p.toks with
+  | ["vconst", d, _] => buildOp d [] false false
+  | ["vvar", d] => buildOp d [] false false
+  | ["vxyz", d, _] => buildOp d [] false false
+  | ["vinvalid", d] => buildOp d [] false false
+  | ["vcopy", d, s] => some [.copy (sl d) (sl s)]
+  | ["vmove", d, s] => some [.move (sl d) (sl s)]
+  | ["vcassign", d, s] => some [.copyAssign (sl d) (sl s)]
+  | ["vmassign", d, s] => some [.moveAssign (sl d) (sl s)]
+  | ["vdestroy", d] => some [.destroy (sl d)]
+  | ["vrelease", d, s] => some [.release (sl d) (sl s)]
+  | ["vreclaim", d, s] => some [.reclaim (sl d) (sl s)]
+  | ["vunary", d, _, a] => buildOp d [a] false false
+  | ["vbinary", d, _, a, b] => buildOp d [a, b] false false
+  | ["vremap", d, t, x, y, z] => buildOp d [t, x, y, z] true false
+  | ["vapply", d, t, v, w] => buildOp d [t, v, w] true false
+  | ["vopt", d, a] => buildOp d [a] false false
+  | ["vflat", d, a] => buildOp d [a] false false
+  | ["vcvars", d, a] => buildOp d [a] false false
+  | ["vdeser", d, a] => buildOp d [a] false false
+  | ["vprint", a] => some [.observe [sl a]]
+  | ["vsize", a] => some [.observe [sl a]]
+  | ["vser", a] => some [.observe [sl a]]
+  | ["vserforce", a] => some [.observe [sl a]]
+  | ["vwalk", a] => some [.observe [sl a]]
+  | ["veval", a] => some [.observe [sl a]]
+  | ["veq", a, b] => some [.observe [sl a, sl b]]
+  | ["cxyz", d, _] => buildOp d [] true true
+  | ["cconst", d, _] => buildOp d [] true true
+  | ["cvar", d] => buildOp d [] true true
+  | ["cnullary", d, _] => buildOp d [] true true
+  | ["cunary", d, _, a] => buildOp d [a] true true
+  | ["cbinary", d, _, a, b] => buildOp d [a, b] true true
+  | ["cremap", d, t, x, y, z] => buildOp d [t, x, y, z] true true
+  | ["copt", d, a] => buildOp d [a] true true
+  | ["csaveload", d, a] => buildOp d [a] true true
+  | ["cdelete", d] => some [.destroy (sl d)]
+  | ["cprint", a] => some [.observe [sl a]]
+  | ["cevalf", a] => some [.observe [sl a]]
+  | ["cevalr", a] => some [.observe [sl a]]
+  | ["cevald", a] => some [.observe [sl a]]
+  | ["cinfo", a] => some [.observe [sl a]]
+  | ["cevnew", _, a] => some [.observe [sl a]]
+  | ["cevuse", _] => some []
+  | ["cevdel", _] => some []
+  | _ => none
+
+/-- compare an `obs` line with the model state; returns a list of differences -/
+def compareObs (s : State) (ws : List String) : List String := Id.run do
+  let mut diffs : List String := []
+  match ws with
+  | live :: "slots" :: rest =>
+    if s.ub then diffs := "model-ub" :: diffs
+    if s.liveCount != nat! live then
+      diffs := s!"live model={s.liveCount} real={live}" :: diffs
+    let slotToks := rest.takeWhile (· != "all")
+    let allToks := (rest.dropWhile (· != "all")).drop 1
+    let mut seen : List Nat := []
+    for t in slotToks do
+      let parts := t.splitOn ":"
+      match parts with
+      | [i, k, "null"] =>
+        let i := nat! i
+        seen := i :: seen
+        let want := if k == "t" then Slot.tree none else Slot.raw none
+        if s.slot i != want then diffs := s!"slot {i} model={repr (s.slot i)} real=null-{k}" :: diffs
+      | [i, k, id, rc] =>
+        let i := nat! i
+        seen := i :: seen
+        match id.toNat? with
+        | none => diffs := s!"slot {i} points to an unregistered node" :: diffs
+        | some id =>
+          let want := if k == "t" then Slot.tree (some id) else Slot.raw (some id)
+          if s.slot i != want then diffs := s!"slot {i} model={repr (s.slot i)} real={k}:{id}" :: diffs
+          if s.rcOf id != some (nat! rc) then
+            diffs := s!"rc node {id} (slot {i}) model={s.rcOf id} real={rc}" :: diffs
+      | _ => diffs := s!"unparsable {t}" :: diffs
+    for i in [NSTATIC:s.slots.size] do
+      if s.slot i != Slot.dead && !seen.contains i then
+        diffs := s!"slot {i} live in model, dead in real" :: diffs
+    if !allToks.isEmpty || rest.contains "all" then
+      if allToks.length != s.liveCount then
+        diffs := s!"registry size real={allToks.length} model={s.liveCount}" :: diffs
+      for t in allToks do
+        match t.splitOn ":" with
+        | [id, rc] =>
+          if s.rcOf (nat! id) != some (nat! rc) then
+            diffs := s!"rc node {id} model={s.rcOf (nat! id)} real={rc}" :: diffs
+        | _ => diffs := s!"unparsable {t}" :: diffs
+    return diffs.reverse
+  | _ => return ["unparsable obs"]
+
+def run (_args : List String) (lines : Array String) : Array String := Id.run do
+  let mut out : Array String := #[]
+  let mut s : State := init 0
+  let mut seq := "?"
+  let mut opno := 0
+  let mut pend : Pending := {}
+  for line in lines do
+    let ws := words line
+    match ws with
+    | "seq" :: k :: n :: _ =>
+      seq := k; opno := 0
+      s := init (nat! n - NSTATIC)
+      pend := {}
+    | "op" :: toks =>
+      pend := { toks := toks }
+      opno := opno + 1
+    | "built" :: rest =>
+      match parseBuilt rest with
+      | some b => pend := { pend with built := some b }
+      | none => pend := { pend with bad := some "unparsable built line (unknown/null node reference)" }
+    | "mbuilt" :: n :: _ => pend := { pend with mbuilt := some (nat! n) }
+    | "nullres" :: _ => pend := { pend with isNull := true }
+    | "exc" :: _ => pend := { pend with exc := true }
+    | "unknown-op" :: _ => pend := { pend with bad := some "harness does not know this op" }
+    | "obs" :: rest =>
+      let tag := s!"seq {seq} op {opno} {String.intercalate " " pend.toks}"
+      match pend.bad with
+      | some b => out := out.push s!"MISMATCH {tag} :: {b}"
+      | none =>
+        let isMacro := match pend.toks with
+          | t :: _ => t.startsWith "m"
+          | [] => false
+        let (s', accepted) :=
+          if isMacro then runMacro s pend.toks
+          else match modelOps pend with
+            | some ops => runOps s ops
+            | none => (s, false)
+        s := s'
+        if !accepted then
+          out := out.push s!"MISMATCH {tag} :: model rejected the operation (client discipline / outcome not admissible)"
+        else
+          match compareObs s rest with
+          | [] => out := out.push s!"ok {tag}"
+          | ds => out := out.push s!"MISMATCH {tag} :: {String.intercalate "; " (ds.take 6)}"
+    | "endseq" :: k :: "live" :: l :: "baseline" :: b :: _ =>
+      if s.liveCount == nat! l && !s.ub then
+        out := out.push s!"ok endseq {k} live {l} baseline {b} model {s.liveCount}"
+      else
+        out := out.push s!"MISMATCH endseq {k} live real={l} model={s.liveCount} ub={s.ub}"
+    | _ => pure ()
+  return out
 
 end Driver.C13
